@@ -498,3 +498,32 @@ Proof.
   exact (returned_path_enumerated Hid Hfp ord_v ord_e src dst cores non_cores out p Hv He Hout Hp).
 Qed.
 Print Assumptions returned_paths_are_enumerated.
+
+(** De-duplication keeps the LATEST expiry, as an equation: every returned path is one of the
+    candidates, and its expiry is the maximum over all candidates with its fingerprint (no
+    candidate of the same fingerprint expires later).  For every input, whatever the order in
+    which the duplicates arrive.  The correspondence evaluates the same statement on the
+    implementation's output ([Enum.expiry_max_ok], over repeated calls). *)
+Theorem dedup_expiry_is_max :
+  forall Hid Hfp ord_v ord_e src dst cores non_cores out cand q,
+    src <> dst ->
+    combine_paths Hid Hfp ord_v ord_e src dst cores non_cores = Ok out ->
+    candidate_paths Hid Hfp ord_v ord_e src dst cores non_cores = Ok cand -> In q out ->
+    In q cand /\ forall p, In p cand -> sp_fp p = sp_fp q -> path_expiration p <= path_expiration q.
+Proof.
+  intros Hid Hfp ord_v ord_e src dst cores non_cores out cand q Hne Hout Hcand Hq.
+  destruct (combine_stages _ _ _ _ _ _ _ _ _ Hout) as [[E _]|(g & cand' & _ & _ & _ & Hc' & _ & Hf)];
+    [apply N.eqb_eq in E; contradiction|].
+  rewrite Hcand in Hc'. inversion Hc'; subst cand'.
+  split; [destruct (filter_duplicates_In _ _ _ _ _ Hf Hq) as [[]|H]; exact H|].
+  intros p Hp Hfp'.
+  destruct (filter_duplicates_repr cand [] [] out DInv2_nil Hf p (or_intror Hp)) as (q' & Hq' & Hfq' & Hle).
+  pose proof (filter_duplicates_nodup _ _ _ _ DInv_nil Hf) as Hnd.
+  assert (q' = q).
+  { clear -Hnd Hq Hq' Hfq' Hfp'. induction out as [|x out IH]; [destruct Hq|]. cbn [map] in Hnd. inversion Hnd as [|? ? Hx Hnd']; subst.
+    destruct Hq as [->|Hq], Hq' as [->|Hq']; auto.
+    - exfalso. apply Hx. apply in_map_iff. exists q'. split; [congruence|exact Hq'].
+    - exfalso. apply Hx. apply in_map_iff. exists q. split; [congruence|exact Hq]. }
+  subst q'. exact Hle.
+Qed.
+Print Assumptions dedup_expiry_is_max.
